@@ -621,8 +621,8 @@ SPEC["C19"] = {
          script of the grammar is determined by the script, sieve/WfFun.v).
          The same for get_filter_actions on parser trees and on reloaded sets (C19_parsed_tree_actions,
          C19_reloaded_read_back_full): actions with positional strings and value-less tags.
-   Not proved: address conditions, values with commas (known findings); notsize (repaired in 7391840, covered by the
-   differential run and the direct oracle).  These are evaluated on the implementation and, for the model, by the differential runs.""",
+   Not proved: address conditions, values with commas (known findings).  notsize (repaired in 7391840) is one of the
+   condition forms of the theorems (DSize with its negation flag).  These are evaluated on the implementation and, for the model, by the differential runs.""",
     "imports": TEXT_IMPORTS + "From SV Require Import Tables ArgCheck ArgSpec Machine Printer GenTables Ops Build BuildFacts BuildSet Read ReadFacts ReadReload FactoryConsts ConstFacts.\n",
     "theorems": [
         ("C19_reloaded_read_back", "ReadReload.reload_read_back", "on a set reloaded from its rendered script: the parser accepts the text and every filter of the parsed script (taken out of its `if false` wrapper when disabled, as getfilter does) is read back as it was defined"),
